@@ -916,6 +916,7 @@ class ParserHelper(UnitsContainer):
 _subs_re_list = [
     ("\N{DEGREE SIGN}", "degree"),
     (r"([\w\.\-\+\*\\\^])\s+", r"\1 "),  # merge multiple spaces
+    (r"\s+(?=⁻?[⁰¹²³⁴⁵⁶⁷⁸⁹])", ""),  # a pretty exponent belongs to what precedes it
     (r"({}) squared", r"\1**2"),  # Handle square and cube
     (r"({}) cubed", r"\1**3"),
     (r"cubic ({})", r"\1**3"),
